@@ -315,6 +315,15 @@ fn fault(slot: &str, kind: &str, extra: Value) -> Value {
 
 /// Ciphertext that is consistent for the victim (C2, C3 computed from [d]C1') for an arbitrary
 /// affine point C1' = (x, y) -- on the curve or not. Only a check on C1 itself can reject it.
+/// The same with C1 in compressed form (prefix from the parity of y, then x as sent).
+fn crafted_ct_compressed(d: &BigUint, x: &BigUint, y: &BigUint, x_wire: &BigUint, msg: &[u8], order: &str) -> Option<Vec<u8>> {
+    let full = crafted_ct(d, x, y, x_wire, msg, order)?;
+    let mut ct = vec![if y.bit(0) { 3u8 } else { 2u8 }];
+    ct.extend_from_slice(&full[1..33]);
+    ct.extend_from_slice(&full[65..]);
+    Some(ct)
+}
+
 fn crafted_ct(d: &BigUint, x: &BigUint, y: &BigUint, x_wire: &BigUint, msg: &[u8], order: &str) -> Option<Vec<u8>> {
     let s = rsm2::with_curve(|c| c.mul(d, &Some((x.clone(), y.clone()))))?;
     let t = kdf(&[be32(&s.0), be32(&s.1)].concat(), msg.len());
@@ -488,12 +497,15 @@ pub fn run_c06(p: &mut Prng, _t: Tier, i: usize, sink: &mut Sink) {
                 if let Some(ys) = rsm2::with_curve(|c| c.sqrt(&g)) {
                     let xw = &xs + &pp;
                     if xw.bits() <= 256 {
-                        if let Some(c) = crafted_ct(&d, &xs, &ys, &xw, &msg, order) {
+                        // in the C1 form this receiver expects (compressed: only the decoder's own
+                        // range check on x stands between x + p and the point with abscissa x)
+                        let craft = |xw: &BigUint| if comp { crafted_ct_compressed(&d, &xs, &ys, xw, &msg, order) } else { crafted_ct(&d, &xs, &ys, xw, &msg, order) };
+                        if let Some(c) = craft(&xw) {
                             w.bump("fault.crafted-coordinate-ge-p");
                             branches.push(vec![set("a.ct", &c), dec()]);
                         }
                         // the same point sent canonically is a VALID ciphertext: must decrypt
-                        if let Some(c) = crafted_ct(&d, &xs, &ys, &xs, &msg, order) {
+                        if let Some(c) = craft(&xs) {
                             branches.push(vec![set("a.ct", &c), dec()]);
                         }
                     }
@@ -502,6 +514,29 @@ pub fn run_c06(p: &mut Prng, _t: Tier, i: usize, sink: &mut Sink) {
                 xs += 1u32;
             }
         } else {
+            // compressed C1 of a valid point with tiny x, sent as x + p: only the decoder's own range
+            // check on x stands between this encoding and the point with abscissa x (body consistent
+            // for the victim); the same point sent canonically must decrypt
+            {
+                let mut xs = BigUint::from(p.range(1, 1000));
+                for _ in 0..64 {
+                    let g = (&xs * &xs * &xs + &aa * &xs + &bb) % &pp;
+                    if let Some(ys) = rsm2::with_curve(|c| c.sqrt(&g)) {
+                        let xw = &xs + &pp;
+                        if xw.bits() <= 256 {
+                            if let Some(c) = crafted_ct_compressed(&d, &xs, &ys, &xw, &msg, order) {
+                                w.bump("fault.crafted-coordinate-ge-p");
+                                branches.push(vec![set("a.ct", &c), dec()]);
+                            }
+                            if let Some(c) = crafted_ct_compressed(&d, &xs, &ys, &xs, &msg, order) {
+                                branches.push(vec![set("a.ct", &c), dec()]);
+                            }
+                        }
+                        break;
+                    }
+                    xs += 1u32;
+                }
+            }
             // compressed x with no square root
             let mut x = x1.clone();
             for _ in 0..64 {
